@@ -839,6 +839,11 @@ C20_KeepsRegistryAndConstants ==
 \* clear_config() is possible in every reachable state
 C20_Succeeds == \A cc \in BOOLEAN : ("Clear" \in Enabled) => ENABLED Clear(cc)
 
+\* C18 (sequential half): at most one cached object per singleton key, and it is the only one handed out
+C18_SingletonOnce ==
+  /\ \A a, b \in singles : a.key = b.key => a = b
+  /\ (out.op = "Clear" => singles = {})
+
 ------------------------------------------------------------------------------
 (* C09 (sequential half): scopes nest and are restored on every exit path *)
 C09_StackShape == Len(stack) >= 1 /\ stack[1] = <<>>
